@@ -53,7 +53,7 @@ type Harness struct {
 	Bounded  string
 	Contract *Contract
 	Real     map[string]bool // targets whose use-contracts are switched off in this harness (the real body runs)
-	Paths    bool // path-sensitive execution (no joins); infeasible paths are pruned with the solver
+	Paths    bool            // path-sensitive execution (no joins); infeasible paths are pruned with the solver
 }
 
 type Contract struct {
